@@ -1,14 +1,13 @@
 """C04 - implicit gradients of rootfinder / equilibrium / minimize (reference-model monitor: a few Newton steps unrolled in
 plain torch from the detached returned solution, dense Jacobian, compared through random cotangent contractions at first and
 second order)."""
-import math
 import random
 import sys
 
 import torch
 
 from vf.common import Obs, sub_seed, WarnLog, HarnessBug
-from vf import gen, optfam
+from vf import optfam
 
 LEVEL = "exploration"
 TECHNIQUE = ("runtime reference-model monitor: autograd of the real functionals vs autograd of Newton steps unrolled in plain torch "
